@@ -125,7 +125,7 @@ def analyse(case, res):
         if errs:
             fails.append(Failure("C17.event", "C17.event|error_in_rt_mode", f"set_event({t}) failed: {errs[0][3:]}"))
         elif t >= until:
-            warned = any("after simulation end" in m for _, m in res.logs)
+            warned = any(e[0] == "ext_set_event_ok" and e[2] == t and len(e) > 3 and e[3] for e in res.trace)
             if stepped or not warned:
                 fails.append(Failure("C17.event", "C17.event|after_end",
                                      f"set_event({t}) with until={until}: stepped={stepped}, warning={warned}"))
